@@ -49,7 +49,7 @@ type History struct {
 	Ops              []Op         `json:"ops"`
 }
 
-func Tag(op, row int) int64 { return int64(op)<<20 | int64(row) }
+func Tag(op, row int) int64 { return int64(op+1)<<20 | int64(row) } // never 0: searchable in WAL bytes
 
 // Rows builds the request rows of part p of op number op. Row numbering runs
 // over all parts of the op.
